@@ -2,6 +2,7 @@ import GoLevel.Driver.Key
 import GoLevel.Model.LSM
 import GoLevel.Proofs.LSMCompactView
 import GoLevel.Model.Pick
+import GoLevel.Model.Score
 import GoLevel.Proofs.LSMSourcesB
 /-!
 Trace validation for the LSM layer (`lsm …` lines, DESIGN.md §2.2 shape 3).
@@ -22,6 +23,10 @@ Each line is checked against the proved model:
                 `compaction.expand` proved to yield closed inputs in `C06.compaction_inputs_closed`) run on the
                 pinned version from the real level-L inputs answers with the level-L and level-L+1 sets it
                 settles on; the harness expects the real code's sets;
+* `score`     — differential: the model's `Score.computeCompaction` (`Model/Score.lean`, proved in `Props/C06Score.lean`)
+                run on the installed version with the real `GetCompactionL0Trigger()` / `GetCompactionTotalSize(level)`
+                must leave the `cLevel` and `cScore >= 1` the real `computeCompaction` left (a near tie of two different
+                fractions, where `float64` rounding may decide otherwise, is judged on `cScore >= 1` only);
 * `trivial`   — differential: `Pick.newCompaction` from the moved table with the real limits must be `trivial()`;
 * `get`       — `dbGet` on the dumped state (what `C01.lookup_refines_view` is about) answers like `DB.Get`.
 -/
@@ -137,6 +142,14 @@ def pickVerdict (c : UCmp) (v : Version) (src limit : Nat) (S0 : List Table) : S
     | none => "illegal empty-source"
     | some e => numsOut e.s0 ++ " " ++ numsOut e.s1
 
+/-- does the model's `computeCompaction` leave what the real one left (`real = none`: `bestLevel = -1`)? -/
+def scoreVerdict (v : Version) (trigger : Nat) (limits : List Nat) (real : Option Nat) (realGE1 : Bool) : String :=
+  let o : Score.ScoreOpts := ⟨trigger, fun l => limits.getD l 0⟩
+  let ge1 := Score.scoreGE1 o v
+  let lvl := (Score.computeCompaction o v).map (·.1)
+  if ge1 == realGE1 && (lvl == real || Score.nearTie o v) then "ok"
+  else "bad model=" ++ (match lvl with | some l => toString l | none => "none") ++ " " ++ toString ge1
+
 /-- is the compaction the model builds from `[t]` trivial? -/
 def trivialVerdict (c : UCmp) (v : Version) (src expandLimit gpLimit : Nat) (t : Table) : String :=
   if !(decide (t ∈ v.lvl src)) then "illegal source-not-in-version"
@@ -206,6 +219,14 @@ def handleLsm (st : LsmState) : List String → Option (LsmState × String)
       else match lookupVersion st vid, lookupTables st s0 with
         | some v, some S0 => pure (st, pickVerdict st.cmp v src limit S0)
         | _, _ => pure (st, "illegal unknown-version-or-table")
+  | "score" :: vid :: trigger :: real :: realGE1 :: n :: rest => do
+      let vid ← vid.toNat?; let trigger ← trigger.toNat?; let n ← n.toNat?
+      let real ← if real == "none" then some none else real.toNat?.map some
+      let (limits, tail) ← parseNats n rest
+      if !tail.isEmpty then none
+      else match lookupVersion st vid with
+        | some v => pure (st, scoreVerdict v trigger limits real (realGE1 == "true"))
+        | none => pure (st, "illegal unknown-version")
   | ["trivial", vid, src, elimit, glimit, num] => do
       let vid ← vid.toNat?; let src ← src.toNat?; let elimit ← elimit.toNat?; let glimit ← glimit.toNat?
       let num ← num.toNat?
